@@ -21,6 +21,7 @@ def main(tier, seed, replay):
         k.must_find("MC_Event_F21", ev_consts(impl="ImplF21", auth="custom", stypes=(), emits=0, ops=1, ticks=2, spawn_comps="{{}}"), inv, module=M)
         tr = k.validate_profile("events_custom", 150, extra_monitors=AM, extra_fields=AF)
     else:
+        k.model_check("MC_Event_custom_modes", ev_consts(auth="custom", stypes=("SOrd", "SInd"), modes=("all", "direct"), emits=2, cframes=1), inv, module=M)
         k.model_check("MC_Event_custom", ev_consts(auth="custom", stypes=("SOrd", "SInd", "SMap"), emits=2, ticks=3, idle=1, cframes=3), inv, module=M, timeout=3000)
         k.model_check("MC_Event_custom_late", ev_consts(auth="custom", stypes=("SOrd", "SInd"), emits=2, ticks=2, init=(), ops=1), inv, module=M, timeout=3000)
         k.must_find("MC_Event_Unauth", ev_consts(impl="ImplEvUnauth", auth="custom"), ["Inv_C07"], module=M)
